@@ -72,8 +72,23 @@ def gen_sequence(rng, syms):
 
 # ------------------------------------------------------------------ hierarchy generator (mostly valid)
 
+def gen_size_expr(rng, syms):
+    """A size that is a non-negative integer whenever the symbols are (C16)."""
+    if not syms or rng.random() < 0.2:
+        return E.num(rng.randint(0, 4))
+    a = E.sym(rng.choice(syms))
+    r = rng.random()
+    if r < 0.4:
+        return a
+    if r < 0.7:
+        return E.op("add", a, E.num(rng.randint(1, 3)))
+    if r < 0.85:
+        return E.op("mul", E.num(2), a)
+    return E.op("add", a, E.sym(rng.choice(syms)))
+
+
 class Gen:
-    def __init__(self, rng, max_depth=3, max_children=3, p_rep=0.2, p_through=0.1, allow_other=True, p_shuffle=0.5):
+    def __init__(self, rng, max_depth=3, max_children=3, p_rep=0.2, p_through=0.1, allow_other=True, p_shuffle=0.5, qubits=False):
         self.rng = rng
         self.max_depth = max_depth
         self.max_children = max_children
@@ -81,6 +96,7 @@ class Gen:
         self.p_through = p_through
         self.allow_other = allow_other
         self.p_shuffle = p_shuffle
+        self.qubits = qubits     # C16: non-negative sizes, local_ancillae resources
         self.nodes = 0
 
     def subset(self, pool, lo, hi):
@@ -113,15 +129,21 @@ class Gen:
         for ln in self.subset(LOCAL_POOL, 0, 2) if scope else []:
             if ln in scope:
                 continue
-            locals_.append([ln, gen_expr(rng, scope + [l[0] for l in locals_], 2)])
+            locals_.append([ln, gen_size_expr(rng, scope) if self.qubits else gen_expr(rng, scope + [l[0] for l in locals_], 2)])
         scope_l = scope + [l[0] for l in locals_]
         n_out = rng.randint(0, 2)
         for k in range(n_out):
-            ports.append({"name": f"out_{k}", "direction": "output", "size": gen_expr(rng, scope_l, 1) if scope_l else E.num(rng.randint(1, 4))})
+            if self.qubits:
+                size = gen_size_expr(rng, scope)
+            else:
+                size = gen_expr(rng, scope_l, 1) if scope_l else E.num(rng.randint(1, 4))
+            ports.append({"name": f"out_{k}", "direction": "output", "size": size})
         pool = [r for r in RES_POOL if not under_rep or r[1] == "additive"]
         if not self.allow_other:
             pool = [r for r in pool if r[1] in ("additive", "multiplicative")]
         resources = [{"name": n, "type": t, "value": gen_expr(rng, scope_l, 2)} for n, t in self.subset(pool, 1, 3)]
+        if self.qubits and rng.random() < 0.5:
+            resources.append({"name": "local_ancillae", "type": "qubits", "value": gen_size_expr(rng, scope)})
         return {"name": name, "type": rng.choice([None, "leaf"]), "input_params": params, "local_variables": locals_,
                 "linked_params": [], "ports": ports, "resources": resources, "connections": [], "repetition": None,
                 "children": []}, n_out + n_through
@@ -162,7 +184,7 @@ class Gen:
         locals_ = []
         if scope and rng.random() < 0.4:
             ln = rng.choice([l for l in LOCAL_POOL if l not in scope] or ["L2"])
-            locals_.append([ln, gen_expr(rng, scope, 2)])
+            locals_.append([ln, gen_size_expr(rng, scope) if self.qubits else gen_expr(rng, scope, 2)])
         scope_l = scope + [l[0] for l in locals_]
         # children and wiring
         n_children = 1 if is_rep else rng.randint(1, self.max_children)
@@ -223,6 +245,8 @@ class Gen:
                 resources.append({"name": rn, "type": rt if rng.random() < 0.6 else rng.choice(["other", "additive", "qubits"]), "value": val})
             if scope_l and rng.random() < 0.3 and not under_rep and not any(x["name"] == "own" for x in resources):
                 resources.append({"name": "own", "type": "additive", "value": gen_expr(rng, scope_l, 2)})
+        if self.qubits and rng.random() < 0.4 and not is_rep:
+            resources.append({"name": "local_ancillae", "type": "qubits", "value": gen_size_expr(rng, scope)})
         node = {"name": name, "type": rng.choice([None, "comp"]), "input_params": params, "local_variables": locals_,
                 "linked_params": linked_params, "ports": ports, "resources": resources, "connections": connections,
                 "repetition": repetition, "children": children}
